@@ -566,6 +566,10 @@ impl<'a, 'tcx> BodyCx<'a, 'tcx> {
                     .unwrap_or("")
                     .to_string();
                 o.put("msg", J::s(kind));
+                if let mir::AssertKind::Overflow(op, l, _r) = &**msg {
+                    o.put("op", J::s(format!("{:?}", op)));
+                    o.put("oty", J::s(tstr(l.ty(self.body, tcx))));
+                }
                 o.put("t", J::Raw(target.as_usize().to_string()));
                 if t.source_info.span.from_expansion() {
                     o.put("exp", J::Bool(true));
